@@ -4,6 +4,29 @@ import json, os
 ROOT = os.path.dirname(os.path.abspath(__file__))
 
 CLAIMED = {
+ 'C10': dict(
+    category='other',
+    text='Bounded-exhaustive symbolic execution of the real attribute/class-name handling: every history of 2 (3) operations out of '
+         '{write plain, write identifying, delete plain, delete identifying, relate, unrelate, write referential (rejected)} with 4 independent '
+         'case spellings per operation, followed by reads of every attribute under all spellings, where_eq under all spellings and referential reads; '
+         'constructor keywords for plain/identifying/referential attributes under all spellings x all class-name spellings; class-name spelling in '
+         'new/find_metaclass/select_*/find_class/define_class/attribute_type; serialize_instance after writes under mixed spellings. Written values '
+         'are symbolic and unbounded. Oracle: one cell per declared attribute. "Confirmed over all paths" per condition.',
+    design_ref='DESIGN.md section 5, C10',
+    note='two-letter names (4 case patterns); deleting an attribute that holds no value must raise and leave everything else alone; Class.__str__ stubbed.',
+    technique='bounded symbolic execution of the real code (CrossHair + z3); written values symbolic-through'),
+ 'C11': dict(
+    category='other',
+    text='Bounded-exhaustive symbolic execution of the real consistency checker against a direct count: two associations with all 16 multiplicity/'
+         'conditionality pairs (varied one association at a time), EVERY unconstrained 2x2 (3x3 thorough) link matrix, reflexive and not, -> '
+         'check_association_integrity total and per association number, is_consistent; identifiers on a unique_id attribute (type spelled both ways), '
+         'on a composite (integer, string) key and on both, with null/duplicate values from small pools -> check_uniqueness_constraint total and per class; '
+         'subtype integrity; and the command-line tool on generated model text (16 cardinality pairs x duplicate ids x null/matching/dangling references x 9 '
+         '-r/-k option sets) compared with the expected count and exit status.',
+    design_ref='DESIGN.md section 5, C11',
+    note='identifying values are hashed, hence case-split from small pools; null = None or id 0; empty strings outside the claim; message builders '
+         '(pretty_*) stubbed and logging disabled; the CLI parses realised text outside the tracer.',
+    technique='bounded symbolic execution of the real code (CrossHair + z3), exhaustive over link matrices and value tables'),
  'C09': dict(
     category='other',
     text='Bounded-exhaustive symbolic execution of the real query and navigation code. Queries: a population of 3 (4) instances whose integer and '
